@@ -136,7 +136,8 @@ def run(prop, title, obligations, ctx, explanation, assumptions, level="other", 
             "notes": res.info[:10], "counters": res.counters,
         })
     wall = time.time() - t0 + ctx.prep_s
-    os.makedirs(os.path.join(VERIF, "out", prop), exist_ok=True)
+    outroot = getattr(ctx, "outroot", None) or VERIF
+    os.makedirs(os.path.join(outroot, "out", prop), exist_ok=True)
     # stdout
     out("== %s %s [%s] : %d obligations, %d discharged, %d instances ==" % (prop, title, tier, n_ob, n_dis, n_inst))
     for r in records:
@@ -152,7 +153,7 @@ def run(prop, title, obligations, ctx, explanation, assumptions, level="other", 
         seen.add(key)
         out("KNOWN-FINDING: property=%s %s [%s at %s]" % (prop, kf.get("what", ""), key, v["site_s"]))
     for i, (ob, v) in enumerate(violations):
-        path = os.path.join(VERIF, "out", prop, "violation-%d.json" % i)
+        path = os.path.join(outroot, "out", prop, "violation-%d.json" % i)
         with open(path, "w") as fh:
             json.dump({"property": prop, "obligation": ob.id, "rule": ob.rule, "what": ob.desc, "key": v["key"],
                        "site": v["site_s"], "message": v["msg"], "tier": tier}, fh, indent=1)
@@ -177,8 +178,8 @@ def run(prop, title, obligations, ctx, explanation, assumptions, level="other", 
         "violations": len(violations),
     }
     ev["coverage"].update(ctx.extra_coverage)
-    os.makedirs(os.path.join(VERIF, "evidence"), exist_ok=True)
-    with open(os.path.join(VERIF, "evidence", prop + ".json"), "w") as fh:
+    os.makedirs(os.path.join(outroot, "evidence"), exist_ok=True)
+    with open(os.path.join(outroot, "evidence", prop + ".json"), "w") as fh:
         json.dump(ev, fh, indent=1)
     try:
         print("\n".join(lines), flush=True)
